@@ -77,6 +77,7 @@ type Gen struct {
 	resolverURLs        []string
 	modules             map[string]bool
 	Panics              int
+	quiet               bool // suppress per-field hostility (multi-entry messages must have a chance to succeed)
 }
 
 type originRef struct{ ClassID, ID, Source string }
@@ -165,7 +166,7 @@ func (g *Gen) safe(f func() *eng.Tx) (tx *eng.Tx) {
 // ---------- helpers ----------
 
 func (g *Gen) chance(p float64) bool { return g.R.Float64() < p }
-func (g *Gen) hostile() bool         { return g.R.Float64() < g.P.Hostile }
+func (g *Gen) hostile() bool         { return !g.quiet && g.R.Float64() < g.P.Hostile }
 func (g *Gen) actor() string         { return g.A[g.R.Intn(len(g.A))] }
 
 func (g *Gen) otherActor(not string) string {
